@@ -163,11 +163,13 @@ def run_workers(jobs, prop, seed, tier, wdir, budget):
         for w in list(pending):
             rc = w.poll()
             if rc is None:
-                if time.time() - w.t0 > w.budget + 90:
+                if time.time() - w.t0 > w.budget + 90 and not getattr(w, "killed", False):
+                    w.killed = True          # over budget: stopped by us, not a death of the system under test
                     w.proc.kill()
                 continue
             w.close()
-            if rc == 0:
+            if rc == 0 or getattr(w, "killed", False):
+                if getattr(w, "killed", False): log("worker %s stopped after exceeding its time budget" % w.tag)
                 pending.remove(w)
                 continue
             idx, plan = read_status(w.status)
